@@ -288,7 +288,9 @@ def run(chk, gate, status):
     chk.assumptions += ["stated values are 4-significant-digit decimals of a positive target mixture; read-back tolerance 1e-6 relative (the library's own residual test)",
                         "the container used as solvent is free of the named solutes (known finding D10 otherwise)",
                         "LAPACK is replaced by exact Gaussian elimination in the model; ill-conditioned systems are not generated"]
-    return histcheck.run(chk, gens, oracle, 'C05', RULE, nontrivial, rtol=1e-7)
+    cov = histcheck.run(chk, gens, oracle, 'C05', RULE, nontrivial, rtol=1e-7)
+    cov['operations_under_configuration_variants'] = histcheck.variants(chk, gens, oracle, 'C05v', limit=10 if chk.tier == 'quick' else 60)
+    return cov
 
 
 def replay(path):
